@@ -120,6 +120,34 @@ def classify(msg):
     return None
 
 
+def verus_fn_extent(m, start):
+    """(header_end, body_open, end) of a fn item whose header may contain Verus requires/ensures clauses with
+    braces (`match r { .. }`): the body is the depth-0 brace group after which no expression continues."""
+    n = len(m)
+    i = start
+    par = 0
+    while i < n:
+        ch = m[i]
+        if ch in "([":
+            par += 1
+        elif ch in ")]":
+            par -= 1
+        elif par == 0 and ch == ";":
+            return (i, None, i + 1)
+        elif par == 0 and ch == "{":
+            c = rs.match_close(m, i)
+            k = c + 1
+            while k < n and m[k] in " \t\n":
+                k += 1
+            nxt = m[k:k + 8]
+            if k < n and (m[k] in ",&|=.?{<>+-*/:" or re.match(r"(as|is|matches)\b", nxt)):
+                i = c + 1
+                continue
+            return (i, i, c + 1)
+        i += 1
+    raise rs.ScanError("unterminated fn item")
+
+
 def fn_intervals(text):
     """all fn items of a generated file: (start_line, end_line, name, mode, has_body, attrs_text, header_span)"""
     m = rs.mask(text)
@@ -135,7 +163,7 @@ def fn_intervals(text):
             continue
         # skip `fn` inside types like `fn(u8) -> u8`: pattern requires a name so fine
         try:
-            hdr_end, body_open, end = rs._item_extent(text, m, mm.start(4) - 3 if False else start)
+            hdr_end, body_open, end = verus_fn_extent(m, start)
         except rs.ScanError:
             continue
         mode = (mm.group(3) or "exec").strip()
